@@ -57,6 +57,8 @@ def _zeval(e, env, funcs, memo):
         args = [zeval(c, env, funcs, memo) for c in ch]
         if name in funcs:
             return funcs[name](*args)
+        if name.startswith("uf_") and name[3:] in _FUN:
+            name = name[3:]
         if name in _FUN:
             try:
                 return _FUN[name](*args)
